@@ -20,6 +20,8 @@ REQUIRED_THEOREMS = [
     "TapkeeVerif.Tsne.P_dense_sum_one",
     "TapkeeVerif.Tsne.P_dense_symm",
     "TapkeeVerif.Tsne.sqEuclid_not_metric",
+    "TapkeeVerif.Tsne.bh_neighbours_refuted",
+    "TapkeeVerif.Tsne.symmetrizeCsr_small_partial",
     "TapkeeVerif.Tsne.gradient_identity",
     "TapkeeVerif.Tsne.zeroMean_centres",
 ]
